@@ -36,7 +36,7 @@ Section StatusProofs.
 Variable hash : Type.
 Notation rev := (rev hash).
 
-Definition lin (dirty : bool) : cfg := mkCfg Linear None false dirty.
+Definition lin (dirty : bool) : cfg := mkCfg Linear None true dirty.
 
 (** The Count/Total rule of [Report] (last revision partially applied and not resolved). *)
 Definition count_total (all : list file) (revs : list rev) (cnt tot : nat) : Prop :=
@@ -48,12 +48,13 @@ Definition count_total (all : list file) (revs : list rev) (cnt tot : nat) : Pro
       else cnt = 0 /\ tot = 0
   end.
 
-(** ** 1. no revisions table = empty table on a clean database *)
-Lemma report_no_table dirty all (revs : list rev) :
-  report false dirty all revs = report true false all [].
+(** ** 1. no revisions table = empty table, whatever else the database holds *)
+Lemma report_no_table dirty dirty' all (revs : list rev) :
+  report false dirty all revs = report true dirty' all [].
 Proof.
   unfold report. cbn [negb]. cbv iota.
   unfold pending. cbn [last_opt c_dirty c_allow_dirty c_baseline andb negb fst].
+  rewrite andb_false_r. cbn [andb fst].
   destruct (files_from_last_checkpoint all) as [|a l] eqn:E; reflexivity.
 Qed.
 
@@ -157,7 +158,7 @@ Qed.
 (** ** 3. Report never panics; its errors are Pending's *)
 Lemma report_no_panic has_table dirty all (revs : list rev) : report has_table dirty all revs <> SPanic.
 Proof.
-  destruct has_table; [|rewrite report_no_table].
+  destruct has_table; [|rewrite (report_no_table dirty false)].
   2:{ clear revs dirty. unfold report. cbn [negb]. cbv iota.
       destruct (fst (pending _ all [])) as [p| | | |v|sk p|] eqn:Ep; try discriminate.
       - rewrite Nat.eqb_refl. cbn. discriminate.
@@ -242,7 +243,7 @@ Proof.
       rewrite (pending_refines hash (lin dirty) all [] Hsa Hsr) in H.
       unfold pending_spec, first_spec in *. rewrite Hb, Hd. cbn [andb fst].
       cbn [lin c_dirty c_allow_dirty c_baseline negb andb] in H.
-      destruct dirty; cbn [andb fst] in H; [destruct H|].
+      rewrite andb_false_r in H. cbn [andb fst] in H.
       apply shows_const; [|exact H].
       destruct (from_last_ckpt all) as [|f l]; [left; reflexivity|right; exists f, l; reflexivity].
     - rewrite <- Er in *. assert (revs <> []) as Hne by (subst; discriminate).
@@ -259,7 +260,7 @@ Proof.
           apply shows_const; [left; reflexivity|exact H]. }
   destruct has_table.
   - exact (Main dirty revs Hsr H).
-  - rewrite report_no_table in H. apply (Main false []); [constructor|exact H].
+  - rewrite (report_no_table dirty false) in H. apply (Main false []); [constructor|exact H].
 Qed.
 
 (** On a database without a revisions table the report starts at the LAST checkpoint. *)
@@ -268,7 +269,7 @@ Lemma report_fresh_checkpoint dirty (revs : list rev) pre ck rest :
   report false dirty (pre ++ ck :: rest) revs =
   SOk (mkStatus (ck :: rest) [] (ck :: rest) [] CurNone (NextVer (f_version ck)) 0 0 false false).
 Proof.
-  intros Hck Hrest. rewrite report_no_table. unfold report. cbn [negb]. cbv iota.
+  intros Hck Hrest. rewrite (report_no_table dirty false). unfold report. cbn [negb]. cbv iota.
   destruct (first_run_checkpoint hash (lin false) eq_refl eq_refl) as [H _].
   fold (lin false). rewrite (H pre ck rest Hck Hrest). cbn [fst].
   rewrite Nat.eqb_refl. reflexivity.
@@ -279,7 +280,7 @@ Lemma report_fresh_no_checkpoint dirty (revs : list rev) all :
   report false dirty all revs =
   SOk (mkStatus all [] all [] CurNone (NextVer (f_version (hd (mkFile [] [] false) all))) 0 0 false false).
 Proof.
-  intros Hn Hne. rewrite report_no_table. unfold report. cbn [negb]. cbv iota.
+  intros Hn Hne. rewrite (report_no_table dirty false). unfold report. cbn [negb]. cbv iota.
   destruct (first_run_checkpoint hash (lin false) eq_refl eq_refl) as [_ H].
   fold (lin false). rewrite (H all Hn). destruct all as [|a l]; [congruence|]. cbn [fst finish].
   rewrite Nat.eqb_refl. reflexivity.
@@ -317,28 +318,30 @@ Proof.
   - rewrite Forall_forall in *. intros y Hy. apply in_app_or in Hy as [Hy|Hy]; auto.
 Qed.
 
-Definition same_row (a b : rev) : Prop :=
-  r_version a = r_version b /\ r_applied a = r_applied b /\ r_total a = r_total b.
-
+(** after the loop every surviving row is completely applied *)
 Lemma set_loop_In v (revs : list rev) r' :
   In r' (set_loop v revs) ->
-  exists r, In r revs /\ bytes_leb (r_version r) v = true /\ same_row r' r.
+  r_applied r' = r_total r' /\
+  exists r, In r revs /\ bytes_leb (r_version r) v = true /\ r_version r' = r_version r.
 Proof.
-  unfold set_loop. rewrite in_flat_map. intros (r & Hr & H). exists r.
+  unfold set_loop. rewrite in_flat_map. intros (r & Hr & H).
   destruct (bytes_ltb v (r_version r)) eqn:E; [destruct H|].
-  apply bytes_ltb_false_leb in E. split; [exact Hr|split; [exact E|]].
-  destruct (_ && _); destruct H as [<-|[]]; repeat split.
+  apply bytes_ltb_false_leb in E.
+  destruct (r_err r || negb (r_total r =? r_applied r)) eqn:C; destruct H as [<-|[]].
+  - split; [reflexivity|]. exists r. auto.
+  - apply orb_false_iff in C as [_ C]. apply negb_false_iff in C. apply Nat.eqb_eq in C.
+    split; [symmetry; exact C|]. exists r. auto.
 Qed.
 
 Lemma set_loop_keeps v (revs : list rev) r :
   In r revs -> bytes_leb (r_version r) v = true ->
-  exists r', In r' (set_loop v revs) /\ same_row r' r.
+  exists r', In r' (set_loop v revs) /\ r_version r' = r_version r.
 Proof.
   intros Hr E. apply bytes_ltb_false_leb in E.
-  destruct (bytes_eqb (r_version r) v && (r_err r || negb (r_total r =? r_applied r))) eqn:C.
-  - exists (resolve r). split; [|repeat split]. unfold set_loop. apply in_flat_map. exists r.
+  destruct (r_err r || negb (r_total r =? r_applied r)) eqn:C.
+  - exists (resolve r). split; [|reflexivity]. unfold set_loop. apply in_flat_map. exists r.
     rewrite E, C. split; [exact Hr|left; reflexivity].
-  - exists r. split; [|repeat split]. unfold set_loop. apply in_flat_map. exists r.
+  - exists r. split; [|reflexivity]. unfold set_loop. apply in_flat_map. exists r.
     rewrite E, C. split; [exact Hr|left; reflexivity].
 Qed.
 
@@ -347,13 +350,13 @@ Proof.
   unfold sorted_revs. induction 1 as [|a l Hs IH Hf]; [constructor|].
   change (set_loop v (a :: l)) with
     ((if bytes_ltb v (r_version a) then []
-      else if bytes_eqb (r_version a) v && (r_err a || negb (r_total a =? r_applied a)) then [resolve a] else [a])
+      else if r_err a || negb (r_total a =? r_applied a) then [resolve a] else [a])
      ++ set_loop v l).
   assert (forall x y, r_version x = r_version a -> In y (set_loop v l) -> rver_lt hash x y) as X.
-  { intros x y Ex Hy. apply set_loop_In in Hy as (r & Hr & _ & (Ev & _)).
+  { intros x y Ex Hy. apply set_loop_In in Hy as (_ & r & Hr & _ & Ev).
     rewrite Forall_forall in Hf. unfold rver_lt. rewrite Ex, Ev. exact (Hf r Hr). }
   destruct (bytes_ltb v (r_version a)); [exact IH|].
-  destruct (_ && _); simpl; constructor; try exact IH; apply Forall_forall; intros y Hy; apply X; auto.
+  destruct (_ || _); simpl; constructor; try exact IH; apply Forall_forall; intros y Hy; apply X; auto.
 Qed.
 
 Lemma set_upto_In v all f :
@@ -421,34 +424,6 @@ Proof.
   rewrite Forall_forall in *. intros y Hy. apply set_between_In in Hy as (Hy & _). auto.
 Qed.
 
-(** A named file that has a revision is the file of the last (partially applied) revision. *)
-Lemma named_rev_is_last c all (revs : list rev) f r :
-  sorted_files all -> sorted_revs revs ->
-  In f (result_files (fst (pending c all revs))) ->
-  In r revs -> r_version r = f_version f -> r = last revs r.
-Proof.
-  intros Hsa Hsr Hf Hr Ev.
-  assert (revs <> []) as Hne by (destruct revs; [destruct Hr|discriminate]).
-  rewrite (pending_hist_spec hash c all revs r Hsa Hsr Hne) in Hf.
-  unfold hist_spec in Hf. cbv zeta in Hf.
-  assert (forall g, bytes_eqb (f_version g) (r_version (last revs r)) = true ->
-          In f (g :: newer (r_version (last revs r)) all) -> r = last revs r) as Hcons.
-  { intros g Hg [<-|Hn]; [|destruct (newer_no_rev hash all revs r r f Hsr Hr Hn Ev)].
-    apply bytes_eqb_eq in Hg. rewrite <- Ev in Hg.
-    exact (last_ver_unique hash revs r r Hsr Hr Hg). }
-  destruct (r_applied (last revs r) =? r_total (last revs r)).
-  - simpl in Hf. apply by_order_files in Hf as [Hf|Hf].
-    + destruct (ooo_no_rev hash _ _ all revs r f Hr Hf Ev).
-    + destruct (newer_no_rev hash all revs r r f Hsr Hr Hf Ev).
-  - destruct (find _ all) as [g|] eqn:Efind.
-    + apply find_some in Efind as [_ Hg].
-      destruct (f_ckpt g); simpl in Hf.
-      * exact (Hcons g Hg Hf).
-      * apply by_order_files in Hf as [Hf|Hf]; [destruct (ooo_no_rev hash _ _ all revs r f Hr Hf Ev)|].
-        exact (Hcons g Hg Hf).
-    + destruct (existsb _ all); simpl in Hf; destruct Hf.
-Qed.
-
 Lemma result_files_In c all (revs : list rev) f :
   sorted_files all -> sorted_revs revs ->
   In f (result_files (fst (pending c all revs))) -> In f all.
@@ -475,19 +450,22 @@ Proof.
       * destruct (existsb _ all); intros [].
 Qed.
 
-(** After [migrate set v] ([v] a version of the directory): a file with version <= v that
-    Pending still names is either the file of [v] itself and its revision was partially
-    applied before the set, or a file that was already out of order before the set (it has
-    no revision although a later version <= v has one). *)
-Lemma set_except c all (revs : list rev) v g t' f :
+(** [migrate set v] ([v] a version of the directory), as fixed: the table afterwards is sorted,
+    every row is completely applied, the greatest row is [v]; hence Pending's decision is
+    [by_order o (out-of-order files below v) (files newer than v)] -- nothing of version <= v
+    is pending, and a file <= v that is still named is out of order; it was so before the set:
+    it has no revision although a later version <= v has one. *)
+Lemma set_decision c all (revs : list rev) v g t' r0 :
   sorted_files all -> sorted_revs revs ->
   In g all -> f_version g = v ->
   migrate_set (Some v) all revs = SetOk t' ->
-  sorted_revs t' /\
-  (In f (result_files (fst (pending c all t'))) -> bytes_leb (f_version f) v = true ->
-   (f_version f = v /\ exists r, In r revs /\ r_version r = v /\ r_applied r <> r_total r) \/
-   (has_rev revs (f_version f) = false /\
-    exists r, In r revs /\ bytes_ltb (f_version f) (r_version r) = true /\ bytes_leb (r_version r) v = true)).
+  sorted_revs t' /\ t' <> [] /\ (forall r, In r t' -> r_applied r = r_total r) /\
+  r_version (last t' r0) = v /\
+  pending c all t' =
+    (by_order (c_order c) (ooo_files (r_version (hd r0 t')) v t' all) (newer v all), None) /\
+  (forall f, In f (ooo_files (r_version (hd r0 t')) v t' all) ->
+     has_rev revs (f_version f) = false /\
+     exists r, In r revs /\ bytes_ltb (f_version f) (r_version r) = true /\ bytes_leb (r_version r) v = true).
 Proof.
   intros Hsa Hsr Hg Hgv Hset. unfold migrate_set in Hset.
   destruct (files_last_index _ all) as [i|] eqn:Ei.
@@ -500,16 +478,15 @@ Proof.
                | None => set_upto v all
                | Some l => if bytes_ltb (r_version l) v then set_between (r_version l) v all else []
                end) in *.
-  (* facts about the new rows *)
   assert (forall x, In x pend -> In x all /\ bytes_leb (f_version x) v = true /\
                     forall r1, In r1 revs1 -> bytes_ltb (r_version r1) (f_version x) = true) as Hpend.
-  { intros x Hx. subst pend. destruct revs1 as [|r0 tl] eqn:E1.
+  { intros x Hx. subst pend. destruct revs1 as [|q0 tl] eqn:E1.
     - cbn in Hx. apply set_upto_In in Hx as [A B]. split; [exact A|split; [exact B|intros r1 []]].
     - rewrite <- E1 in *. assert (revs1 <> []) as N1 by (rewrite E1; discriminate).
-      rewrite (last_opt_last hash revs1 r0 N1) in Hx.
-      destruct (bytes_ltb (r_version (last revs1 r0)) v); [|destruct Hx].
+      rewrite (last_opt_last hash revs1 q0 N1) in Hx.
+      destruct (bytes_ltb (r_version (last revs1 q0)) v); [|destruct Hx].
       apply set_between_In in Hx as (A & B & C). split; [exact A|split; [exact C|]].
-      intros r1 Hr1. destruct (sorted_revs_last_max hash revs1 r0 r1 Hs1 Hr1) as [->|L]; [exact B|].
+      intros r1 Hr1. destruct (sorted_revs_last_max hash revs1 q0 r1 Hs1 Hr1) as [->|L]; [exact B|].
       eapply bytes_ltb_trans; eauto. }
   assert (sorted_files pend) as Hsp.
   { subst pend. destruct (last_opt revs1) as [l|]; [|apply set_upto_sorted; exact Hsa].
@@ -521,98 +498,104 @@ Proof.
       apply (proj1 (StronglySorted_map (fun a b => bytes_ltb a b = true) f_version pend)). exact Hsp.
     - intros a b Ha Hb. apply in_map_iff in Hb as (x & <- & Hx). unfold rver_lt. cbn [resolved_rev r_version].
       apply (Hpend x Hx). exact Ha. }
-  split; [exact Hst|].
   set (t' := revs1 ++ map resolved_rev pend) in *.
-  (* every row of t' is <= v *)
   assert (forall r', In r' t' -> bytes_leb (r_version r') v = true) as HU.
   { intros r' Hr'. apply in_app_or in Hr' as [H|H].
-    - apply set_loop_In in H as (r & _ & Hle & (Ev & _)). rewrite Ev. exact Hle.
+    - apply set_loop_In in H as (_ & r & _ & Hle & Ev). rewrite Ev. exact Hle.
     - apply in_map_iff in H as (x & <- & Hx). cbn. apply (Hpend x Hx). }
-  (* v has a row in t' *)
+  assert (forall r', In r' t' -> r_applied r' = r_total r') as HC.
+  { intros r' Hr'. apply in_app_or in Hr' as [H|H].
+    - apply set_loop_In in H as [H _]. exact H.
+    - apply in_map_iff in H as (x & <- & _). reflexivity. }
   assert (exists rv, In rv t' /\ r_version rv = v) as (rv & Hrv & Erv).
   { destruct (has_rev revs v) eqn:Hv.
     - apply has_rev_In in Hv. apply in_map_iff in Hv as (r & Er & Hr).
-      destruct (set_loop_keeps v revs r Hr) as (r' & Hr' & (Ev & _)); [rewrite Er; apply bytes_leb_refl|].
+      destruct (set_loop_keeps v revs r Hr) as (r' & Hr' & Ev); [rewrite Er; apply bytes_leb_refl|].
       exists r'. split; [apply in_or_app; left; exact Hr'|congruence].
     - exists (resolved_rev g). split; [|exact Hgv]. apply in_or_app. right. apply in_map. subst pend.
-      destruct revs1 as [|r0 tl] eqn:E1.
+      destruct revs1 as [|q0 tl] eqn:E1.
       + cbn. apply set_upto_complete; [exact Hsa|exact Hg|rewrite Hgv; apply bytes_leb_refl].
       + rewrite <- E1 in *. assert (revs1 <> []) as N1 by (rewrite E1; discriminate).
-        rewrite (last_opt_last hash revs1 r0 N1).
-        assert (In (last revs1 r0) revs1) as Hl.
+        rewrite (last_opt_last hash revs1 q0 N1).
+        assert (In (last revs1 q0) revs1) as Hl.
         { destruct (exists_last N1) as (l' & a & E). rewrite E, last_last. apply in_or_app. right. left. reflexivity. }
-        apply set_loop_In in Hl as (r & Hr & Hle & (Ev & _)).
-        assert (bytes_ltb (r_version (last revs1 r0)) v = true) as Hlt.
+        apply set_loop_In in Hl as (_ & r & Hr & Hle & Ev).
+        assert (bytes_ltb (r_version (last revs1 q0)) v = true) as Hlt.
         { rewrite Ev. apply bytes_leb_cases in Hle as [L|E]; [exact L|].
           exfalso. assert (has_rev revs v = true) as X by (rewrite <- E; apply has_rev_of_In; exact Hr).
           congruence. }
         rewrite Hlt. apply set_between_complete; [exact Hsa|exact Hg|rewrite Hgv; exact Hlt|rewrite Hgv; apply bytes_leb_refl]. }
   assert (t' <> []) as Hne by (destruct t'; [destruct Hrv|discriminate]).
-  assert (r_version (last t' rv) = v) as Hlast.
-  { destruct (sorted_revs_last_max hash t' rv rv Hst Hrv) as [<-|L]; [exact Erv|].
-    assert (In (last t' rv) t') as Hl.
-    { destruct (exists_last Hne) as (l' & a & E). rewrite E, last_last. apply in_or_app. right. left. reflexivity. }
-    apply HU in Hl. rewrite Erv in L. apply bytes_leb_false_ltb in L. congruence. }
-  intros Hf Hle.
-  assert (In f all) as Hfa by (exact (result_files_In c all t' f Hsa Hst Hf)).
-  destruct (has_rev t' (f_version f)) eqn:Hr.
-  - (* f has a row: it is the last one, v, and it is partial *)
-    left. apply has_rev_In in Hr. apply in_map_iff in Hr as (r' & Er' & Hr').
-    pose proof (named_rev_is_last c all t' f r' Hsa Hst Hf Hr' Er') as El.
-    rewrite (last_indep hash t' r' rv Hne) in El.
-    assert (f_version f = v) as Efv by (rewrite <- Er', El; exact Hlast).
-    split; [exact Efv|].
-    pose proof (never_applied_again hash c all t' f r' Hsa Hst Hf Hr' Er') as Hnc.
-    apply in_app_or in Hr' as [H|H].
-    + apply set_loop_In in H as (r & Hin & _ & (Ev & Ea & Et)). exists r.
-      split; [exact Hin|]. split; [congruence|]. unfold complete in Hnc. congruence.
-    + apply in_map_iff in H as (x & <- & _). exfalso. apply Hnc. reflexivity.
-  - (* f has no row: it was out of order already *)
-    right.
-    assert (has_rev revs (f_version f) = false) as Hno.
-    { destruct (has_rev revs (f_version f)) eqn:X; [|reflexivity].
-      apply has_rev_In in X. apply in_map_iff in X as (r & Er & Hin).
-      destruct (set_loop_keeps v revs r Hin) as (r' & Hr' & (Ev & _)); [rewrite Er; exact Hle|].
-      assert (has_rev t' (f_version f) = true) as Y.
-      { rewrite <- Er, <- Ev. apply has_rev_of_In. apply in_or_app. left. exact Hr'. }
-      congruence. }
-    split; [exact Hno|].
-    assert (~ In f pend) as Hnp.
-    { intros Hp. assert (has_rev t' (f_version f) = true) as Y.
-      { change (f_version f) with (r_version (resolved_rev (hash := hash) f)). apply has_rev_of_In.
-        apply in_or_app. right. apply in_map. exact Hp. }
-      congruence. }
-    subst pend. destruct revs1 as [|r0 tl] eqn:E1.
-    + exfalso. apply Hnp. cbn. apply set_upto_complete; assumption.
-    + rewrite <- E1 in *. assert (revs1 <> []) as N1 by (rewrite E1; discriminate).
-      rewrite (last_opt_last hash revs1 r0 N1) in Hnp.
-      assert (In (last revs1 r0) revs1) as Hl.
-      { destruct (exists_last N1) as (l' & a & E). rewrite E, last_last. apply in_or_app. right. left. reflexivity. }
-      apply set_loop_In in Hl as (r & Hin & Hrle & (Ev & _)).
-      exists r. split; [exact Hin|]. split; [|exact Hrle]. rewrite <- Ev.
-      destruct (bytes_ltb (f_version f) (r_version (last revs1 r0))) eqn:L; [reflexivity|exfalso].
-      apply bytes_ltb_false_leb in L. apply bytes_leb_cases in L as [L|E].
-      * assert (bytes_ltb (r_version (last revs1 r0)) v = true) as Lv by (eapply bytes_ltb_leb_trans; eauto).
-        rewrite Lv in Hnp. apply Hnp. apply set_between_complete; assumption.
-      * assert (has_rev revs (f_version f) = true) as Y.
-        { rewrite <- E, Ev. apply has_rev_of_In. exact Hin. }
-        congruence.
+  assert (In (last t' r0) t') as Hlin.
+  { destruct (exists_last Hne) as (l' & a & E). rewrite E, last_last. apply in_or_app. right. left. reflexivity. }
+  assert (r_version (last t' r0) = v) as Hlast.
+  { destruct (sorted_revs_last_max hash t' r0 rv Hst Hrv) as [<-|L]; [exact Erv|].
+    pose proof (HU _ Hlin) as Hle. rewrite Erv in L. apply bytes_leb_false_ltb in L. congruence. }
+  split; [exact Hst|]. split; [exact Hne|]. split; [exact HC|]. split; [exact Hlast|].
+  split.
+  { rewrite (out_of_order hash c all t' r0 Hsa Hst Hne (HC _ Hlin)). rewrite Hlast. reflexivity. }
+  intros f Hf. apply (ooo_files_In hash) in Hf as (Hfa & Hck & Hfirst & Hlt & Hnd).
+  assert (bytes_leb (f_version f) v = true) as Hle by (apply bytes_ltb_leb; exact Hlt).
+  assert (has_rev t' (f_version f) = false) as Hr.
+  { destruct (has_rev t' (f_version f)) eqn:X; [|reflexivity]. exfalso.
+    apply has_rev_In in X. apply in_map_iff in X as (r' & Er' & Hr').
+    assert (done_rev t' (f_version f) = true) as Y by (apply (done_rev_In hash); exists r'; auto).
+    congruence. }
+  assert (has_rev revs (f_version f) = false) as Hno.
+  { destruct (has_rev revs (f_version f)) eqn:X; [|reflexivity].
+    apply has_rev_In in X. apply in_map_iff in X as (r & Er & Hin).
+    destruct (set_loop_keeps v revs r Hin) as (r' & Hr' & Ev); [rewrite Er; exact Hle|].
+    assert (has_rev t' (f_version f) = true) as Y.
+    { rewrite <- Er, <- Ev. apply has_rev_of_In. apply in_or_app. left. exact Hr'. }
+    congruence. }
+  split; [exact Hno|].
+  assert (~ In f pend) as Hnp.
+  { intros Hp. assert (has_rev t' (f_version f) = true) as Y.
+    { change (f_version f) with (r_version (resolved_rev (hash := hash) f)). apply has_rev_of_In.
+      apply in_or_app. right. apply in_map. exact Hp. }
+    congruence. }
+  subst pend. destruct revs1 as [|q0 tl] eqn:E1.
+  + exfalso. apply Hnp. cbn. apply set_upto_complete; assumption.
+  + rewrite <- E1 in *. assert (revs1 <> []) as N1 by (rewrite E1; discriminate).
+    rewrite (last_opt_last hash revs1 q0 N1) in Hnp.
+    assert (In (last revs1 q0) revs1) as Hl.
+    { destruct (exists_last N1) as (l' & a & E). rewrite E, last_last. apply in_or_app. right. left. reflexivity. }
+    apply set_loop_In in Hl as (_ & r & Hin & Hrle & Ev).
+    exists r. split; [exact Hin|]. split; [|exact Hrle]. rewrite <- Ev.
+    destruct (bytes_ltb (f_version f) (r_version (last revs1 q0))) eqn:L; [reflexivity|exfalso].
+    apply bytes_ltb_false_leb in L. apply bytes_leb_cases in L as [L|E].
+    * assert (bytes_ltb (r_version (last revs1 q0)) v = true) as Lv by (eapply bytes_ltb_leb_trans; eauto).
+      rewrite Lv in Hnp. apply Hnp. apply set_between_complete; assumption.
+    * assert (has_rev revs (f_version f) = true) as Y.
+      { rewrite <- E, Ev. apply has_rev_of_In. exact Hin. }
+      congruence.
+Qed.
+
+(** ... in particular: whatever the order, a named file of version <= v is one of those
+    out-of-order files, and linear-skip (= the Pending list of status) names none. *)
+Lemma set_nothing_pending c all (revs : list rev) v g t' r0 f :
+  sorted_files all -> sorted_revs revs ->
+  In g all -> f_version g = v ->
+  migrate_set (Some v) all revs = SetOk t' ->
+  In f (result_files (fst (pending c all t'))) -> bytes_leb (f_version f) v = true ->
+  c_order c <> LinearSkip /\ In f (ooo_files (r_version (hd r0 t')) v t' all).
+Proof.
+  intros Hsa Hsr Hg Hgv Hset Hf Hle.
+  destruct (set_decision c all revs v g t' r0 Hsa Hsr Hg Hgv Hset) as (_ & _ & _ & _ & Hp & _).
+  rewrite Hp in Hf. cbn [fst] in Hf.
+  assert (~ In f (newer v all)) as Hnn.
+  { intros H. apply newer_In in H as (_ & _ & L). apply bytes_leb_false_ltb in L. congruence. }
+  destruct (c_order c); cbn [by_order] in Hf.
+  - split; [discriminate|]. destruct (ooo_files _ v t' all) as [|a l] eqn:E.
+    + rewrite finish_files in Hf. contradiction.
+    + cbn [result_files] in Hf. apply in_app_or in Hf as [H|H]; [exact H|contradiction].
+  - rewrite finish_files in Hf. contradiction.
+  - split; [discriminate|]. rewrite finish_files in Hf. apply in_app_or in Hf as [H|H]; [exact H|contradiction].
 Qed.
 
 End StatusProofs.
 
-(** Witness: directory [1] (two statements), revision 1 partially applied (1/2, error);
-    [migrate set 1] keeps Applied < Total and Pending still names file 1. *)
+(** The former witness of C11-set-on-partial-revision: directory [1] (two statements),
+    revision 1 partially applied (1/2, error); after [migrate set 1] nothing is pending. *)
 Definition ws_file : file := mkFile [49%N] [[65%N]; [66%N]] false.
 Definition ws_rev : rev unit := mkRev [49%N] 1 2 [tt] true 2%N.
-
-Lemma set_partial_witness :
-  exists (c : cfg) (all : list file) (revs : list (rev unit)) (v : bytes) (g : file) (t' : list (rev unit)) (f : file),
-    sorted_files all /\ sorted_revs revs /\ In g all /\ f_version g = v /\
-    migrate_set (Some v) all revs = SetOk t' /\
-    In f (result_files (fst (pending c all t'))) /\ bytes_leb (f_version f) v = true.
-Proof.
-  exists (mkCfg Linear None false false), [ws_file], [ws_rev], [49%N], ws_file, [resolve ws_rev], ws_file.
-  split; [repeat constructor|]. split; [repeat constructor|].
-  vm_compute. repeat split; auto.
-Qed.
